@@ -8,6 +8,8 @@
 #define VFH_MAIN
 #include "vfh.hxx"
 #include <cerrno>
+#include <new>
+#include <stdexcept>
 #include <string_view>
 #include "TFEL/Utilities/StringAlgorithms.hxx"
 
@@ -325,8 +327,12 @@ int main(int argc, char** argv) {
     try {
       const V r = tu::tokenize(std::string_view(s), std::string_view(""));
       std::printf("@@VF {\"ev\":\"note\",\"what\":\"emptydelim-returned\",\"n\":%zu}\n", r.size());
-    } catch (std::exception& e) {
-      std::printf("@@VF {\"ev\":\"note\",\"what\":\"emptydelim-exception\"}\nEXC %s\n", e.what());
+    } catch (std::bad_alloc& e) {      // the result grew until memory was exhausted
+      std::printf("@@VF {\"ev\":\"note\",\"what\":\"emptydelim-memory\"}\nEXC %s\n", e.what());
+    } catch (std::length_error& e) {
+      std::printf("@@VF {\"ev\":\"note\",\"what\":\"emptydelim-memory\"}\nEXC %s\n", e.what());
+    } catch (std::exception& e) {      // refusing the empty delimiter is a proper way to terminate
+      std::printf("@@VF {\"ev\":\"note\",\"what\":\"emptydelim-rejected\"}\nEXC %s\n", e.what());
     }
     std::fflush(stdout);
     return 0;
